@@ -18,11 +18,29 @@ def main():
         return 2
     ctx = core.Ctx(prop, tier, seed)
     ctx.extra['repo_rebuild'] = info
+
+    # soft deadline a little before the parent's hard time-out: whatever has been established by then is reported
+    class _Deadline(Exception):
+        pass
+
+    def _alarm(signum, frame):
+        raise _Deadline()
+    import signal
+    signal.signal(signal.SIGALRM, _alarm)
+    signal.alarm(3150 if tier == 'thorough' else 1380)
     try:
         mod = importlib.import_module('harness.props.' + prop.lower())
         if replay:
             return mod.replay(ctx, replay)
         mod.run(ctx)
+    except _Deadline:
+        signal.alarm(0)
+        ctx.extra['deadline_hit'] = True
+        if ctx.failing or ctx.broken or ctx.known_hits:
+            print('[%s] soft deadline reached; reporting what was established so far' % prop)
+            return ctx.finish()
+        print('INFRA: time-out (soft deadline) with nothing established')
+        return 2
     except core.InfraError as e:
         print('INFRA: %s' % e)
         return 2
@@ -30,6 +48,7 @@ def main():
         traceback.print_exc()
         print('INFRA: harness exception')
         return 2
+    signal.alarm(0)
     return ctx.finish()
 
 
